@@ -110,3 +110,52 @@ func init() {
 		return tokBytes(rtmp.VerifSingleChunkHeader(int(numTok(a[0])), int(numTok(a[1])), uint8(numTok(a[2])), int(numTok(a[3]))))
 	})
 }
+
+// c08.pk <cmd>|<cmd>|... : the writers of ONE rtmp.MessagePacker in order; output = the bytes of every
+// message (joined by ','), then lal's reader (peer chunk size 4096) on their concatenation.
+// cmd = name:arg:... (strings are bytes tokens):  cs:V was:V pbw:V:L connect:APP:TCURL:FLASHVER:PUSH
+// cres:TID:OBJENC:VERSION cstream csres:TID play:S:MSID publish:S:MSID ospub:MSID osplay:MSID rec:ID begin:ID
+// pingreq:TS ack:N pingresp:TS raw:CSID:TYPE:MSID:BODY
+func c08PackerCmd(pk *rtmp.VerifPacker, cmd string) []byte {
+	f := strings.Split(cmd, ":")
+	n := func(i int) int { return int(numTok(f[i])) }
+	str := func(i int) string { return string(bytesTok(f[i])) }
+	switch f[0] {
+	case "cs", "was", "csres", "ospub", "osplay", "rec", "begin", "pingreq", "ack", "pingresp":
+		return pk.Do(f[0], "", "", n(1), 0, 0, false)
+	case "pbw":
+		return pk.Do(f[0], "", "", n(1), n(2), 0, false)
+	case "connect":
+		return pk.Do(f[0], str(1), str(2), 0, 0, 0, boolTok(f[4]))
+	case "cres":
+		return pk.Do(f[0], "", "", n(1), n(2), 0, false)
+	case "cstream":
+		return pk.Do(f[0], "", "", 0, 0, 0, false)
+	case "play":
+		return pk.Do(f[0], str(1), "", n(2), 0, 0, false)
+	case "publish":
+		return pk.Do(f[0], str(1), "app", n(2), 0, 0, false)
+	case "raw":
+		return pk.Do(f[0], str(4), "", n(1), n(2), n(3), false)
+	}
+	panic("bad packer cmd " + cmd)
+}
+
+func init() {
+	register("c08.pk", func(a []string) string {
+		pk := rtmp.NewVerifPacker()
+		var outs []string
+		var all []byte
+		for _, cmd := range strings.Split(a[0], "|") {
+			var b []byte
+			r := runOne(func(x []string) string { b = c08PackerCmd(pk, x[0]); return "" }, []string{cmd})
+			if r != "" {
+				outs = append(outs, r)
+				return strings.Join(outs, ",")
+			}
+			outs = append(outs, tokBytes(b))
+			all = append(all, b...)
+		}
+		return fmt.Sprintf("%s %s", strings.Join(outs, ","), c08Run(all, 4096, false))
+	})
+}
